@@ -179,6 +179,17 @@ def mismatch_diffs(m):
                     d.append((f'row[{o["op"]}{",all" if o["all"] else ""}{",neg" if o["negate"] else ""}{",ws" if o["ws"] else ""}{",limit" if o["limit"] else ""}]{kind}',
                               dict(o=o, ranges=e['rows'][i]), g['rows'][i]))
             return d
+        if rec['ev'] == 'FindData':
+            es = set(json.dumps(x) for x in e.get('items', []))
+            gs = [json.dumps(x) for x in (g or {}).get('items', [])]
+            d = []
+            if len(set(gs)) != len(gs):
+                d.append(('finddata.duplicates', 'each once', gs))
+            if es - set(gs):
+                d.append(('finddata.missing', sorted(es - set(gs))[:4], []))
+            if set(gs) - es:
+                d.append(('finddata.extra', [], sorted(set(gs) - es)[:4]))
+            return d or [('finddata', 'ok', rec['outcome'])]
         if rec['ev'] == 'Load':
             if not e.get('outcome'):
                 return [('load.' + rec['outcome'], 'ok|err', rec['outcome'])]
@@ -336,7 +347,7 @@ def attribute(m, diffs):
 
 READONLY_OWNER = {'Lookup': 'C03', 'TextSel': 'C04', 'AnnTextOf': 'C04', 'OffsetReport': 'C04', 'Utf8Byte': 'C12',
                   'ByteToChar': 'C12', 'TextOp': 'C07', 'TestRelation': 'C13', 'RelatedText': 'C06',
-                  'TestRelationRow': 'C13', 'RelatedRow': 'C06', 'Validate': 'C18', 'WebAnno': 'C17', 'Parse': 'C09', 'Query': 'C08', 'ConcRun': 'C20', 'Load': 'C19'}
+                  'TestRelationRow': 'C13', 'RelatedRow': 'C06', 'Validate': 'C18', 'WebAnno': 'C17', 'Parse': 'C09', 'Query': 'C08', 'ConcRun': 'C20', 'Load': 'C19', 'FindData': 'C10'}
 
 
 def _has_offset(t):
@@ -369,6 +380,8 @@ def arg_features(rec):
             f.append('off=' + a['off']['bk'] + a['off']['ek'])
     elif ev == 'OffsetReport':
         f.append('m=%d' % a['m'])
+    elif ev == 'FindData':
+        f.append('via=%s,set=%s,key=%s,op=%s,v=%s' % (a['via'], 'y' if a['set'] else 'n', 'y' if a['key'] else 'n', a['op'], a['v']['t']))
     elif ev == 'Load':
         f.append('%s,%s,%s,arg=%s' % (a['format'], a['part'], a['op'], a['arg']))
     elif ev == 'ConcRun':
@@ -422,6 +435,8 @@ def arg_features(rec):
 def fingerprint(m, diffs):
     rec, exp = m['rec'], m['exp']
     paths = sorted(set(norm_path(p) for p, _, _ in diffs))
+    if exp.get('readonly') and rec['ev'] == 'FindData':
+        return '|'.join(['FindData', 'got=' + rec['outcome'], ','.join(paths), ','.join(arg_features(rec))])
     if exp.get('readonly') and rec['ev'] == 'Load':
         return '|'.join(['Load', 'got=' + rec['outcome'], ','.join(paths), ','.join(arg_features(rec))])
     if exp.get('readonly') and rec['ev'] == 'ConcRun':
